@@ -6,7 +6,7 @@
    ergodicity and the law of the random generator are assumed. *)
 From Coq Require Import ZArith List Bool Lia Reals.
 From MTV.Model Require Import Chain.
-From MTV.Lib Require Import Rlist Markov.
+From MTV.Lib Require Import Rlist Markov MarkovMH.
 From MTV.Proofs Require Import C07_chain.
 Import ListNotations.
 Open Scope Z_scope.
@@ -67,3 +67,39 @@ Theorem C07_detailed_balance_gives_stationarity : forall (S : Type) (states : li
   forall j, In j states -> Rlist_sum (map (fun i => pi i * P i j) states) = pi j.
 Proof. exact detailed_balance_stationary. Qed.
 Print Assumptions C07_detailed_balance_gives_stationarity.
+
+(* The kernel the chain actually runs: propose j with probability Q i j, move with probability a i j, otherwise stay (the
+   bookkeeping theorems above: a rejection repeats the current state).  If the acceptance rule balances (C05) then that kernel,
+   rejection mass included, has rows summing to one, is non-negative and leaves pi invariant. *)
+Theorem C07_metropolis_kernel_with_rejections_is_stationary :
+  forall (S : Type) (eq_dec : forall a b : S, {a = b} + {a <> b}) (states : list S), NoDup states ->
+  forall (pi : S -> R) (Q a : S -> S -> R),
+  (forall i, In i states -> Rlist_sum (map (fun j => Q i j) states) = 1) ->
+  (forall i j, In i states -> In j states -> i <> j -> pi i * (Q i j * a i j) = pi j * (Q j i * a j i)) ->
+  (forall i, In i states -> Rlist_sum (map (fun j => MH S eq_dec states Q a i j) states) = 1) /\
+  (forall j, In j states -> Rlist_sum (map (fun i => pi i * MH S eq_dec states Q a i j) states) = pi j) /\
+  ((forall i j, 0 <= Q i j) -> (forall i j, 0 <= a i j <= 1) -> forall i j, In i states -> 0 <= MH S eq_dec states Q a i j).
+Proof.
+  intros S eq_dec states ND pi Q a HQ HB. split; [|split].
+  - intros i Hi. exact (MH_rows S eq_dec states ND Q a i Hi).
+  - intros j Hj. exact (MH_stationary S eq_dec states ND pi Q a HB j Hj).
+  - intros Qp A i j Hi. exact (MH_nonneg S eq_dec states Q a HQ Qp A i j Hi).
+Qed.
+Print Assumptions C07_metropolis_kernel_with_rejections_is_stationary.
+
+(* A trans-dimensional chain draws a model jump with probability p and a shift otherwise: the mixture of two kernels that each
+   balance with pi balances with pi and leaves it invariant. *)
+Theorem C07_mixture_of_jump_and_shift_kernels_is_stationary :
+  forall (S : Type) (states : list S) (pi : S -> R) (Pjump Pshift : S -> S -> R) (p : R),
+  (forall i, In i states -> Rlist_sum (map (fun j => Pjump i j) states) = 1) ->
+  (forall i, In i states -> Rlist_sum (map (fun j => Pshift i j) states) = 1) ->
+  (forall i j, In i states -> In j states -> pi i * Pjump i j = pi j * Pjump j i) ->
+  (forall i j, In i states -> In j states -> pi i * Pshift i j = pi j * Pshift j i) ->
+  (forall i j, In i states -> In j states -> pi i * mix S Pjump Pshift p i j = pi j * mix S Pjump Pshift p j i) /\
+  (forall j, In j states -> Rlist_sum (map (fun i => pi i * mix S Pjump Pshift p i j) states) = pi j).
+Proof.
+  intros S states pi P1 P2 p R1 R2 B1 B2. split.
+  - intros i j Hi Hj. exact (mix_balance S states pi P1 P2 p B1 B2 i j Hi Hj).
+  - intros j Hj. exact (mix_stationary S states pi P1 P2 p R1 R2 B1 B2 j Hj).
+Qed.
+Print Assumptions C07_mixture_of_jump_and_shift_kernels_is_stationary.
